@@ -1,5 +1,5 @@
 (* C04 — v-for: instances, scoping, restoration, v-else.  Theorems only. *)
-From V Require Import Base.Bytes Base.Val Model.Stack Model.Truthy Model.Loops Proofs.StackP Proofs.LoopsP.
+From V Require Import Model.ForHead Proofs.ForHeadP Base.Bytes Base.Val Model.Stack Model.Truthy Model.Loops Proofs.StackP Proofs.LoopsP.
 
 (* the evaluator that threads the stack through Push / Set / evaluate / Pop (as the code does)
    hands back exactly the stack it was given - every shadowed variable has its outer value again,
@@ -64,3 +64,22 @@ Print Assumptions C04_envmap_sees_loop_var.
 
 Example C04_premise_holds_for_every_render : forall d, scopes (init_stack d) <> [].
 Proof. intro d. cbn. discriminate. Qed.
+
+(* the head of a v-for in its spellings (eval_for.go:parseFor, compared with the implementation on every string up to
+   length 6 over a loop-head alphabet): "item in items" binds one variable, "(item) in items" the same one
+   variable, "(index,item) in items" two - whatever the names and the collection expression are *)
+Theorem C04_head_one_variable : forall x c, plain x -> plain c -> (forall r, x <> x28 :: r) ->
+  parse_for (x ++ s_in ++ c) = Some ([x], c).
+Proof. exact head_one. Qed.
+Print Assumptions C04_head_one_variable.
+Theorem C04_head_parenthesised_variable : forall x c, plain x -> plain c -> nocomma x ->
+  parse_for (x28 :: x ++ [x29] ++ s_in ++ c) = Some ([x], c).
+Proof. exact head_paren_one. Qed.
+Print Assumptions C04_head_parenthesised_variable.
+Theorem C04_head_index_and_item : forall i v c, plain i -> plain v -> plain c -> nocomma i -> nocomma v ->
+  parse_for (x28 :: i ++ [x2c] ++ v ++ [x29] ++ s_in ++ c) = Some ([i; v], c).
+Proof. exact head_paren_two. Qed.
+Print Assumptions C04_head_index_and_item.
+Example C04_head_spellings : parse_for (bs "( i , item )  in  items ") = Some ([bs "i"; bs "item"], bs "items")
+  /\ parse_for (bs " ( item ) in list.of.items") = Some ([bs "item"], bs "list.of.items") /\ parse_for (bs "item") = None.
+Proof. vm_compute. repeat split. Qed.
